@@ -28,6 +28,7 @@ ASSUMPTIONS = [
     'L1/L2 in their at-all-points form (kill or terminate landing at every statement of the child loop, thread kind inside a Pool) are not discharged in this round: the design probe P-21 (marker lost when the exception lands on the put of PersistentThreadWorker._cleanup) is therefore not reported by this check',
 ]
 MUTANTS = [
+    ('pyworkers/persistent.py', "        self._counter = 0 # (re)set by _init_child", "        pass # (re)set by _init_child", 'the result counter exists only after _init_child(): _cleanup crashes when the terminate lands earlier'),
     ('pyworkers/persistent_remote.py', "        if not last_partial_result_signalled: # e.g.", "        if False: # e.g.", 'no end marker fabricated when the final result arrives without one'),
     ('pyworkers/persistent_remote.py', "                if not last_partial_result_signalled:\n                    self._results_pipe.child_end.put((counter, False, None, self.id))\n                    last_partial_result_signalled = True\n                break",
      "                self._results_pipe.child_end.put((counter, False, None, self.id))\n                break", 'a second end marker is fabricated when the connection drops after the marker'),
@@ -198,12 +199,50 @@ def build(ex):
         params={'self': ('const', None), 'block': ('const', None), 'timeout': ('const', None)}, self_class=PTW, setup=nr_setup,
         ensures=[nr_result], raises={'queue.Empty': None}, raises_only=['queue.Empty'],
         options={'on_block': 'oblige', 'chan_elem_inv': {'results.q': four_tuple}, 'recv_closed_check': False}), None))
+    # ------------------------------------------------------------------ L5 the end marker can be written wherever the terminate landed
+    # _cleanup runs in the finally block of the kind's run function; a terminate may land before the child has run _init_child().  So _cleanup may rely
+    # only on what the CONSTRUCTORS establish: self is given exactly the attributes assigned by the __init__ methods along the MRO (read from the tree).
+    def cleanup_lemma(kind_cls, lid, pipe_kind):
+        def setup(ex_, env):
+            I = ex_.interp
+            names = workers.ctor_attrs(repo, kind_cls)
+            attrs = {}
+            for nme in sorted(names):
+                attrs[nme] = I.sym(nme.strip('_'))
+            rp, rends = common.make_pipe(ex_, 'results', pipe_kind)
+            ap, aends = common.make_pipe(ex_, 'args', pipe_kind)
+            attrs.update(_results_pipe=rp, _args_pipe=ap, _cleaned_up=VBool(False), _started=VBool(True))
+            if '_counter' in attrs:
+                attrs['_counter'] = I.sym('counter', 'int')
+            if '_socket' in names or kind_cls == PRW:
+                sock = common.new_chan(ex_, 'Conn', 'data')
+                attrs['_socket'] = sock
+                env['out'] = sock
+            else:
+                env['out'] = rends['q'] if pipe_kind == 'LocalPipe' else rends['child']
+            env['self'] = ex_.alloc(HObj(repo.cls(kind_cls), attrs))
+
+        def marker_written(c):
+            ex_ = c.ex
+            o = c.env['out']
+            out = ex_.abs_classes[o.cls].get(ex_, o, 'out')
+            m = out[z3.Length(out) - 1]
+            lst = Val.vitems(m)
+            return z3.And(z3.Length(out) >= 1, Val.is_v_tup(m), ValList.vl_hd(ValList.vl_tl(lst)) == Val.v_bool(z3.BoolVal(False)))
+        marker_written.__doc__ = 'the end marker (counter, False, None, id) is written'
+        return (Contract(kind_cls + '._cleanup', lid=lid, name=f'C06.{lid} {kind_cls.rsplit(".", 1)[1]}._cleanup writes the end marker relying only on what the constructors establish (a terminate may land before _init_child)',
+                         params={'self': ('const', None)}, self_class=kind_cls, setup=setup, ensures=[marker_written], raises={}, raises_only=[],
+                         options={'__call_hooks__': dict(common.MSG_HOOKS), 'recv_closed_check': False}), None)
+    PPW = 'pyworkers.persistent_process.PersistentProcessWorker'
+    lemmas.append(cleanup_lemma(PTW, 'L5-thread', 'LocalPipe'))
+    lemmas.append(cleanup_lemma(PPW, 'L5-process', 'Pipe'))
+    lemmas.append(cleanup_lemma(PRW, 'L5-remote', 'LocalPipe'))
     return lemmas
 
 
 def replay(ob, repo):
     from pyvc.native import run_script
-    r = run_script('c06_native.py', {'lemma': ob['lemma']}, repo, timeout=150)
+    r = run_script('c06_native.py', {'lemma': ob['lemma'].split(' ')[0].split('.')[-1]}, repo, timeout=150)
     return bool(r.get('violates')), r
 
 
